@@ -4982,8 +4982,28 @@ func updateMeshTopology(tx WriteTxn, idx uint64, node string, svc *structs.NodeS
 
 	for u := range oldUpstreams {
 		if !inserted[u] {
-			if _, err := tx.DeleteAll(tableMeshTopology, indexID, u, downstream); err != nil {
-				return fmt.Errorf("failed to truncate %s table: %v", tableMeshTopology, err)
+			// This instance no longer declares the upstream. Drop only its own
+			// reference; the mapping goes away once no instance refers to it.
+			obj, err := tx.First(tableMeshTopology, indexID, u, downstream)
+			if err != nil {
+				return fmt.Errorf("%q lookup failed: %v", tableMeshTopology, err)
+			}
+			existingMapping, ok := obj.(*upstreamDownstream)
+			if !ok {
+				continue
+			}
+			sid := svc.CompoundServiceID()
+			mapping := existingMapping.DeepCopy()
+			delete(mapping.Refs, structs.UniqueID(node, sid.String()))
+			if len(mapping.Refs) == 0 {
+				if err := tx.Delete(tableMeshTopology, existingMapping); err != nil {
+					return fmt.Errorf("failed to truncate %s table: %v", tableMeshTopology, err)
+				}
+			} else {
+				mapping.ModifyIndex = idx
+				if err := tx.Insert(tableMeshTopology, mapping); err != nil {
+					return fmt.Errorf("failed inserting %s mapping: %s", tableMeshTopology, err)
+				}
 			}
 			if err := indexUpdateMaxTxn(tx, idx, tableMeshTopology); err != nil {
 				return fmt.Errorf("failed updating %s index: %v", tableMeshTopology, err)
